@@ -748,7 +748,7 @@ pub struct Binders {
     chunk: usize,
     scratch: Option<Scratch>,
 }
-const BINDER_FORMS: [&str; 5] = ["let", "do", "fn", "value-let", "value-fn"];
+const BINDER_FORMS: [&str; 6] = ["let", "do", "fn", "value-let", "value-fn", "single-arm-match"];
 impl Binders {
     pub fn new() -> Self {
         let mut cases = vec![];
@@ -756,6 +756,13 @@ impl Binders {
             for p in patterns(&ty, 2) {
                 for b in 0..BINDER_FORMS.len() {
                     cases.push((ty.clone(), p.clone(), b));
+                }
+                // every tuple pattern also as a member of an alias pattern, refutable ones included: the
+                // checker rejects those by its own rule today; if it ever accepts one, coverage must see it
+                if matches!(p, P::Tup(_)) && !matches!(p, P::Tup(ref c) if c.iter().all(|q| *q == P::Wild)) {
+                    for b in 0..BINDER_FORMS.len() {
+                        cases.push((ty.clone(), P::Alias(Box::new(p.clone())), b));
+                    }
                 }
             }
         }
@@ -771,6 +778,7 @@ impl Binders {
             | "do" => format!("{{ fn (v : {tyt}) => do {pt} <- ret v; ret 1 }}"),
             | "fn" => format!("{{ fn (v : {tyt}) => (fn ({pt} : {tyt}) => ret 1) v }}"),
             | "value-let" => format!("{{ fn (v : {tyt}) => ret (let {pt} = v in 1) }}"),
+            | "single-arm-match" => format!("{{ fn (v : {tyt}) => match v | {pt} => ret 1 end }}"),
             | _ => format!("{{ fn (v : {tyt}) => let g : {dom} -> Int64 = fn ({pt} : {tyt}) => 1 in ret (g v) }}"),
         };
         s.push_str(&format!("  let f : Thk ({dom} -> Ret Int64) = {f} in\n"));
@@ -799,7 +807,7 @@ impl Check for Binders {
         format!("binder patterns #{}..#{}; first: {} binder, type {}, pattern {:?}\n{}", i * self.chunk, (i + 1) * self.chunk, BINDER_FORMS[*b], ty_text(ty), p, Binders::program(ty, p, *b, &values(ty, 3)))
     }
     fn rule(&self) -> String {
-        format!("every pattern of nesting depth <= 2 over each of the {} scrutinee types of c04-matches, in each of 5 binder constructs (let, do, function parameter, value-level let, pure function parameter) ({} binders); oracle = brute-force enumeration of every value: accepted iff the pattern matches every value of the type; a rejection carries a coverage diagnostic whose missing patterns denote unmatched values; an accepted binder runs on every value without failing; types with uninhabited components are judged only for soundness; non-trivial = patterns that nest a constructor", scrutinee_types().len(), self.cases.len())
+        format!("every pattern of nesting depth <= 2 over each of the {} scrutinee types of c04-matches, in each of 6 one-row positions (let, do, function parameter, value-level let, pure function parameter, single-arm match), every tuple pattern also as a member of an alias pattern ({} binders); oracle = brute-force enumeration of every value: accepted iff the pattern matches every value of the type; a rejection carries a coverage diagnostic whose missing patterns denote unmatched values; an accepted binder runs on every value without failing; types with uninhabited components are judged only for soundness; non-trivial = patterns that nest a constructor", scrutinee_types().len(), self.cases.len())
     }
     fn run(&mut self, i: usize) -> CaseResult {
         let scratch = self.scratch.get_or_insert_with(|| Scratch::new("c04b"));
